@@ -210,7 +210,32 @@ func runC07Misc(t *fw.T) {
 }
 
 var litPieces = []string{`a`, `Z`, ` `, `"`, `'`, "`", `\"`, `\'`, `\\`, `\n`, `\t`, `\0`, `\x41`, `\x22`, `\x27`, `\x5c`, `\x0a`, `\x00`, `\xe9`, `\xFF`, `A`, `"`, `\`, `\u000A`, ` `, `é`,
-	`€`, `😀`, `\uD800`, `\u{41}`, `\u{22}`, `\u{5c}`, `\u{a}`, `\u{1F600}`, `\u{10FFFF}`, "\\\n", "é", "€", "😀", `$`, `{`, `}`, `//`, `/*`, `;`, `\8`, `\101`, `%`, `0`, `x`, `u`}
+	`€`, `😀`, `\uD800`, `\u{41}`, `\u{22}`, `\u{5c}`, `\u{a}`, `\u{1F600}`, `\u{10FFFF}`, "\\\n", "é", "€", "😀", `$`, `{`, `}`, `//`, `/*`, `;`, `\8`, `\101`, `%`, `0`, `x`, `u`,
+	// escapes that decode to characters which interact with their neighbours: digits (extend a preceding \0 or octal
+	// escape), hex letters (extend \x / \u), braces, 'u', 'x'
+	`\x31`, `\x39`, `\u0030`, `\u0037`, `\u{38}`, `\u{0031}`, `\1`, `\7`, `\12`, `\x61`, `\x46`, `\u0078`, `\u{75}`, `\x7b`, `\x7d`, `1`, `7`, `9`, `f`, `{`}
+
+// randomEscape is an \x, \u or \u{} escape of a seed-chosen code point, biased towards ASCII.
+func randomEscape(r *rand.Rand) string {
+	var cp int
+	switch r.IntN(4) {
+	case 0:
+		cp = r.IntN(0x80)
+	case 1:
+		cp = r.IntN(0x100)
+	case 2:
+		cp = r.IntN(0x10000)
+	default:
+		cp = r.IntN(0x110000)
+	}
+	switch k := r.IntN(3); {
+	case k == 0 && cp < 0x100:
+		return fmt.Sprintf([]string{`\x%02x`, `\x%02X`}[r.IntN(2)], cp)
+	case k <= 1 && cp < 0x10000:
+		return fmt.Sprintf([]string{`\u%04x`, `\u%04X`}[r.IntN(2)], cp)
+	}
+	return fmt.Sprintf([]string{`\u{%x}`, `\u{%X}`, `\u{%04x}`, `\u{%06X}`}[r.IntN(4)], cp)
+}
 
 func runC07Random(t *fw.T) {
 	r := t.Rand()
@@ -221,6 +246,9 @@ func runC07Random(t *fw.T) {
 		var sb strings.Builder
 		for k := 0; k < n; k++ {
 			p := litPieces[r.IntN(len(litPieces))]
+			if r.IntN(4) == 0 {
+				p = randomEscape(r)
+			}
 			if p == q {
 				p = `\` + p
 			}
